@@ -205,6 +205,20 @@ def body_end_to_end(ctx, kind):
         if removed:
             del ds.attrs['ems_version']
             expect = 'CFGrid2D'
+    elif kind in ('shoc_simple_i', 'shoc_simple_j'):
+        # a SHOC simple file needs both of its dimensions j and i: with one of them renamed it is a plain CF grid
+        ds = builders.shoc_simple(2, 3)
+        expect = 'ShocSimple'
+        if removed:
+            ds = ds.rename_dims({'i': 'x'} if kind.endswith('_i') else {'j': 'y'})
+            expect = 'CFGrid2D'
+    elif kind in ('shoc_standard_xgrid', 'shoc_standard_ycentre'):
+        # every one of the eight coordinate variables is required
+        ds = builders.shoc_standard(2, 3)
+        expect = 'ShocStandard'
+        if removed:
+            ds = ds.drop_vars('x_grid' if kind.endswith('xgrid') else 'y_back')
+            expect = 'CFGrid2D'
     elif kind == 'shoc_standard':
         ds = builders.shoc_standard(2, 3)
         expect = 'ShocStandard'
@@ -327,7 +341,8 @@ def cases(tier):
         yield Case(f'detector:cf-scalar{rank}', body_cf_detector, dict(rank=rank), max_paths=100000, split=32)
     for rank in (1, 2):
         yield Case(f'detector:cf{rank}d', body_cf_detector, dict(rank=rank), max_paths=100000, split=32)
-    for kind in ('cf1d', 'cf2d', 'shoc_simple', 'shoc_standard', 'ugrid_marker', 'ugrid_mesh', 'nothing'):
+    for kind in ('cf1d', 'cf2d', 'shoc_simple', 'shoc_simple_i', 'shoc_simple_j', 'shoc_standard', 'shoc_standard_xgrid', 'shoc_standard_ycentre',
+                 'ugrid_marker', 'ugrid_mesh', 'nothing'):
         yield Case(f'detect:{kind}', body_end_to_end, dict(kind=kind), max_paths=10)
     for conv in ('cf1d', 'ugrid'):
         yield Case(f'history:{conv}:len{3 if q else 4}', body_history, dict(length=3 if q else 4, conv=conv), max_paths=5000, split=16)
